@@ -14,7 +14,8 @@ RULE = ("Hypothesis-generated well-separated annotations (shared, contained and 
         "(within-tolerance reads, exon skipping, intron retention, truncations, polyA) x delta presets x optional "
         "tag grouping. Non-trivial = some annotated feature has include > 0 and exclude > 0; distinct by scenario hash.")
 ASSUMPTIONS = ["processed reads = distinct alignment records of read_assignments.tsv with their exons column",
-               "features within delta of another annotated feature, features overlapping a read end region and introns "
+               "features within delta of another annotated feature, exons straddling the start of the read's last block or "
+               "the end of its first block (exons wholly inside those blocks are not skipped) and introns "
                "overlapping the read span by 1..30 bp are UNSPECIFIED (counted as grey)"]
 
 MARGIN = 10
@@ -93,6 +94,10 @@ def recount(records, feats, sim, delta, kind):
                 if span[0] < s and e < span[1]:
                     slot[2] += 1
                 elif e < exons[0][0] or s > exons[-1][1]:
+                    pass
+                elif len(exons) > 1 and (s >= exons[-1][0] or e <= exons[0][1]):
+                    # the exon begins inside the read's last block or ends inside its first block: it does not lie
+                    # between the read's first and last exon, so the read does not skip it
                     pass
                 else:
                     slot[3] += 1
